@@ -145,8 +145,12 @@ class Script:
     bounds="S = 2 or 3 concurrent requests after a warm-up request on one HTTP/2 connection (prior knowledge), responses of HEADERS + 2 DATA frames",
     outside="more than 3 concurrent streams; CONTINUATION/push/priority frames; more than one schedule deviation",
     stubs=("strict h2 library in server role (raises on stream-limit or flow-control violations)", "server releases the next batch of frames whenever every client task is blocked"),
-    also=("C01", "C02"),
-    per_prop={"C02": {"quick": [{"S": 2, "mode": "order", "_pre": f"sv == 0 and rst == 0 and ping == 0 and d0 == 0 and c0 == 0 and aband == 0 and p0 == {a} and p1 == {b}"}
+    also=("C01", "C02", "C08"),
+    per_prop={"C08": {"quick": [{"S": 2, "mode": "order", "_pre": f"sv == 0 and rst == 0 and ping == 0 and d0 == 0 and c0 == 0 and aband == 0 and p0 == {a} and p1 == {b}"}
+                                for a in (0, 1) for b in (0, 1)],
+                      "thorough": [{"S": 3, "mode": "order3", "_pre": f"sv == 0 and rst == 0 and ping == 0 and b0 == 0 and p0 == {a} and aband == 0 and d0 == 0 and c0 == 0"} for a in range(3)]
+                      + [{"S": 2, "mode": "sched", "_pre": "sv == 0 and rst == 0 and ping == 0 and aband == 0 and b0 in (0, 2) and p2 == 0 and p3 == 0 and p4 == 0 and p5 == 0"}]},
+              "C02": {"quick": [{"S": 2, "mode": "order", "_pre": f"sv == 0 and rst == 0 and ping == 0 and d0 == 0 and c0 == 0 and aband == 0 and p0 == {a} and p1 == {b}"}
                                 for a in (0, 1) for b in (0, 1)],
                       "thorough": [{"S": 3, "mode": "order3", "_pre": f"sv == 0 and rst == 0 and ping == 0 and b0 == 0 and p0 == {a} and aband == 0 and d0 == 0 and c0 == 0"} for a in range(3)]}},
 )
@@ -208,7 +212,7 @@ def _streams(S: int, picks: list[int], b0: int, settings_at: int, settings_val: 
     where = (f"settings={settings_val}@{'below-in-flight' if 0 < settings_val < S else 'ok'}" if settings_val > 0
              else ("other-setting" if settings_val else "plain"))
     # -------- each caller receives exactly its own stream
-    for prop in ("C12", "C01", "C02"):
+    for prop in ("C12", "C01", "C02", "C08"):
         token_oracle(callers, prop, sig)
     if cancel_at:
         # a caller cancelled mid-exchange is outside C12's quantifier (callers
@@ -218,6 +222,10 @@ def _streams(S: int, picks: list[int], b0: int, settings_at: int, settings_val: 
     # -------- cannot wedge each other
     P.check(not rt.deadlocked, "no-stream-wedges-another",
             lambda: f"{sig}:deadlock:{where}:rst={rst_idx >= 0}", prop="C12")
+    if settings_val == 0:
+        # C08(d): callers sharing one HTTP/2 connection (threads, seen through
+        # the async twin): no lost wake-up
+        P.check(not rt.deadlocked, "no-lost-wake-up-on-a-shared-connection", lambda: f"{sig}:deadlock:{where}", prop="C08")
     P.check(not srv.violations, "client-obeys-the-protocol(stream limit, flow control)",
             lambda: f"{sig}:server-saw:{srv.violations[:1]}", prop="C12")
     reset_tok = None
